@@ -64,7 +64,7 @@ def gen_settings(rng, template, base, allow_runspecs=True, allow_strings=False, 
     elif allow_runspecs and rng.random() < 0.3:
         dt = rng.choice([1.0, 0.5, 0.25, 0.1, 0.2, 2.0])        # (decimal steps too: (0.3 - 0) / 0.1 is 2.9999999999999996 in floating point)
         # (a start time need not be a multiple of dt: start 1 with dt 2, start 0.5 with dt 1 - the grid is start + k*dt)
-        start = base["start"] + rng.choice([0.0, 0.0, 1.0, 2.0, 0.5])
+        start = base["start"] + rng.choice([0.0, 0.0, 1.0, 2.0, 0.5, 0.5])
         n = rng.choice([3, 4, 6, 7])
         # a partial override is relative to the base model's run spec, which only holds at registration;
         # later settings override all three so that the stop time stays on the grid
